@@ -2,7 +2,7 @@
 import wlcheck
 
 PID = 'C07'
-TAGS = set('iter,snapiter'.split(','))
+TAGS = set('iter,snapiter,liveiter'.split(','))
 THEOREMS = []
 IMPORTS = ['LcdbModel.Props.C07']
 TARGETS = ['LcdbModel.Props.C07']
